@@ -6,6 +6,21 @@ from mpservice.mpserver import Worker
 from scen_servlet import BatchErr, CallErr, PreErr, is_exc, reqof
 
 
+def _failure_site(e):
+    raise e
+
+
+def _descend(e, d):
+    """the failure happens `d` frames below the worker method (deep library stacks, recursion)"""
+    if d > 0:
+        return _descend(e, d - 1)
+    return _failure_site(e)
+
+
+def _depth(r):
+    return 45 if r % 2 == 1 else 0
+
+
 class PW(Worker):
     def __init__(self, *, mark, cf=(), pf=(), bp=(), has_pre=False, **kw):
         super().__init__(**kw)
@@ -13,7 +28,7 @@ class PW(Worker):
 
     def preprocess(self, x):
         if self.has_pre and reqof(x) in self.pf:
-            raise PreErr(self.mark, reqof(x))
+            _descend(PreErr(self.mark, reqof(x)), _depth(reqof(x)))
         return x
 
     def _one(self, v, batched):
@@ -25,7 +40,7 @@ class PW(Worker):
                     raise e
                 except CallErr as e2:
                     return e2
-            raise e
+            _descend(e, _depth(r))
         return (v, self.mark)
 
     def call(self, x):
@@ -33,7 +48,7 @@ class PW(Worker):
             if any(is_exc(v) for v in x):
                 raise RuntimeError('call on an exception value')
             if any(reqof(v) in self.bp for v in x):
-                raise BatchErr(self.mark)
+                _descend(BatchErr(self.mark), _depth(min(reqof(v) for v in x)))
             return [self._one(v, True) for v in x]
         if is_exc(x):
             raise RuntimeError('call on an exception value')
